@@ -17,6 +17,8 @@ import (
 	"sync"
 	"time"
 
+	"github.com/corazawaf/coraza/v3/internal/corazawaf"
+	"github.com/corazawaf/coraza/v3/internal/memoize"
 	"github.com/corazawaf/coraza/v3/verifrt"
 	"github.com/corazawaf/coraza/v3/verifrt/simos"
 )
@@ -75,6 +77,7 @@ type Check struct {
 	NeedsRace   bool // every run executes under the scheduler with the race detector
 	Isolated    bool // shrink candidates must run in fresh processes
 	Run         func(w *verifrt.World, tier Tier) *RunResult
+	Prepare     func(scratch string) error // parent-side set-up before workers start
 	Runs        [2]int // run budget per tier (total over all workers)
 	MaxSeconds  [2]int
 	Rule        string
@@ -219,6 +222,10 @@ func raceFingerprint(report string) (fp string, inSim bool) {
 func execRun(c *Check, w *verifrt.World, tier Tier) (res *RunResult) {
 	verifrt.Install(w)
 	simos.ResetEnv()
+	// every run starts from the process-wide state of a fresh process
+	memoize.VerifResetGlobals()
+	corazawaf.VerifResetGlobals()
+	verifrt.LiveReset()
 	defer func() {
 		if r := recover(); r != nil {
 			res = &RunResult{}
@@ -268,6 +275,16 @@ func workerMain(c *Check, tier Tier, seed uint64, idx, nworkers, runs int, maxSe
 		w := verifrt.NewWorld(rs)
 		res := execRun(c, w, tier)
 		out.Runs++
+		if os.Getenv("VSIM_SELFCHECK") != "" {
+			// debugging aid: the same seed in a fresh process must record the same tapes
+			if ro, err := spawnReplay(c, tier, rs, nil, filepath.Dir(outPath)); err == nil {
+				a, _ := json.Marshal(w.Tapes())
+				b, _ := json.Marshal(ro.Tapes)
+				if string(a) != string(b) {
+					fmt.Fprintf(os.Stderr, "SELFCHECK: run %d seed %d differs from a fresh process: sched %d vs %d, work %d vs %d\n", k, rs, len(w.Tapes()["sched"]), len(ro.Tapes["sched"]), len(w.Tapes()["work"]), len(ro.Tapes["work"]))
+				}
+			}
+		}
 		if len(out.Seeds) < 8 {
 			out.Seeds = append(out.Seeds, rs)
 		}
@@ -542,6 +559,12 @@ func parentMain(c *Check, tier Tier, seed uint64, nworkers int, evidencePath, re
 		nworkers = 1
 	}
 	per := (runs + nworkers - 1) / nworkers
+	if c.Prepare != nil {
+		if err := c.Prepare(scratch); err != nil {
+			fmt.Fprintf(os.Stderr, "INFRASTRUCTURE: %v\n", err)
+			return 2
+		}
+	}
 	var wg sync.WaitGroup
 	outs := make([]*workerOut, nworkers)
 	errs := make([]string, nworkers)
@@ -776,4 +799,68 @@ var wsRe = regexp.MustCompile(`\s+`)
 // compactNumberArrays puts arrays of numbers (tapes) on one line.
 func compactNumberArrays(b []byte) []byte {
 	return numArr.ReplaceAllFunc(b, func(m []byte) []byte { return wsRe.ReplaceAll(m, nil) })
+}
+
+// detTest runs n seeds, each in three fresh processes at GOMAXPROCS 1, 4 and 16,
+// and compares recorded tapes, scenario and violations byte for byte.
+func detTest(c *Check, tier Tier, n int, scratch string) int {
+	if c.Prepare != nil {
+		if err := c.Prepare(scratch); err != nil {
+			fmt.Fprintln(os.Stderr, err)
+			return 2
+		}
+	}
+	bad := 0
+	var mu sync.Mutex
+	sem := make(chan struct{}, 8)
+	var wg sync.WaitGroup
+	for i := 0; i < n; i++ {
+		wg.Add(1)
+		sem <- struct{}{}
+		go func(i int) {
+			defer wg.Done()
+			defer func() { <-sem }()
+			seed := verifrt.Mix(424242, uint64(i))
+			var first string
+			for _, procs := range []string{"1", "4", "16"} {
+				in, _ := json.Marshal(map[string]any{"seed": seed})
+				cmd := exec.Command(os.Args[0], "replayjson", c.ID, tier.String())
+				cmd.Stdin = bytes.NewReader(in)
+				cmd.Env = append(workerEnv(scratch, fmt.Sprintf("dt%d-%s", i, procs)), "GOMAXPROCS="+procs)
+				out, err := cmd.Output()
+				if err != nil {
+					mu.Lock()
+					fmt.Printf("dettest %s seed %d: process failed: %v\n", c.ID, seed, err)
+					bad++
+					mu.Unlock()
+					return
+				}
+				var ro replayOut
+				json.Unmarshal(out, &ro)
+				var fps []string
+				for _, v := range ro.Viol {
+					fps = append(fps, v.Fingerprint)
+				}
+				sort.Strings(fps)
+				tb, _ := json.Marshal(ro.Tapes)
+				sb, _ := json.Marshal(ro.Scenario)
+				sig := fmt.Sprintf("%x %x %v", hash64(string(tb)), hash64(string(sb)), fps)
+				if first == "" {
+					first = sig
+				} else if sig != first {
+					mu.Lock()
+					fmt.Printf("dettest %s seed %d: NONDETERMINISTIC: %s vs %s (GOMAXPROCS %s)\n", c.ID, seed, first, sig, procs)
+					bad++
+					mu.Unlock()
+					return
+				}
+			}
+		}(i)
+	}
+	wg.Wait()
+	fmt.Printf("dettest %s: %d seeds x 3 processes, %d mismatches\n", c.ID, n, bad)
+	if bad > 0 {
+		return 1
+	}
+	return 0
 }
